@@ -124,6 +124,15 @@ def run(chk, replay=None):
             for p in PREFIXES:
                 for how in ("close", "drop"):
                     scen += 1; fam.append(cell(t, tr, p, how, scen))
+    # close() / unbind report each failure they meet: the endpoint's socket file was replaced by a directory, its removal must fail
+    for t in (netlib.TYPES if thorough else ["PULL", "ROUTER", "PUB"]):
+        for how in ("close", "unbind"):
+            scen += 1
+            ops = [{"op": "bind", "name": "a", "ep": netlib.ep("ipc", "s%d" % scen)}, {"op": "bind", "name": "b", "ep": netlib.ep("ipc", "t%d" % scen)},
+                   {"op": "client", "k": 1, "name": "a", "kind": "good"}, {"op": "ipc_sabotage", "name": "a"}]
+            ops += [{"op": "unbind", "name": "a"}, {"op": "probe", "name": "a"}, {"op": "close"}] if how == "unbind" else [{"op": "close"}]
+            ops += [{"op": "probe", "name": "a"}, {"op": "probe", "name": "b"}, {"op": "ipc_exists", "name": "b"}, {"op": "check_eof", "k": 1}, {"op": "tasks"}, {"op": "fds"}]
+            fam.append({"scen": scen, "sock": t, "ops": ops, "tag": "ipc/removal-fails/" + how})
     for s in fam: chk.case((s["sock"], s["tag"]))
     chk.sample({"kind": "cell", "sock": fam[3]["sock"], "cell": fam[3]["tag"], "ops": [o["op"] for o in fam[3]["ops"]]})
     v = netlib.run_net(chk, fam, "c17", procs=8)
